@@ -463,6 +463,11 @@ class Gen:
             if p.get("optional"):
                 self.optional_set += 1
             out[p["name"]] = self.type(p["type"], locus, depth + 1, cri)
+            if p["name"] == "method" and key[0] != "msg" and isinstance(out["method"], P) and out["method"].how == ("base", "string") \
+                    and self.draw(st.integers(0, 1)) == 0:
+                # a property that names a method holds, more often than not, the name of a real one (Registration.method)
+                methods = sorted(m_["method"] for m_ in self.m.doc["requests"] + self.m.doc["notifications"])
+                out["method"] = P(methods[self.draw(st.integers(0, len(methods) - 1))], ("base", "string"))
         if len(out) > 1 and self.cfg.key_order:
             # the order of the members of a JSON object carries no meaning: senders sort them, or write optional ones first
             o = self.draw(st.integers(0, 6))
